@@ -193,6 +193,9 @@ func emitEngine(r *core.Run, rule string) {
 	}
 }
 
+// propEngineView: the part of the engine a property's rules consume (see pkgFilter in emitEngine).
+var propEngineView = map[string]string{"C06": "js", "C07": "css", "C09": "html", "C10": "json", "C11": "xml", "C08": "cssparser", "C15": "position"}
+
 func runEngineAll(r *core.Run) *engResult {
 	sub := core.NewRun(r.Prop, r.Tier, r.Seed, r.Prog)
 	res := &engResult{counts: map[string]int{}}
@@ -201,14 +204,20 @@ func runEngineAll(r *core.Run) *engResult {
 	defer debug.SetGCPercent(old)
 	var tasks []*engTask
 	only := engineFilter(r.Prog)
+	if only == "" {
+		// a property whose engine rules look at one package analyses only that package
+		only = propEngineView[r.Prop]
+	}
 	for _, sp := range lexSpecs {
 		if only != "" && only != sp.rel {
 			continue
 		}
 		runLexer(sub, sp, &tasks)
 	}
-	if only == "" {
+	if only == "" || only == "position" {
 		runPosition(sub, &tasks)
+	}
+	if only == "" {
 		runJSParsePrefix(sub, &tasks)
 	}
 	if only == "" || only == "cssparser" {
